@@ -252,10 +252,34 @@ func loadFileOnce(src []byte) (class int, msg string) {
 	f.Close()
 	L := lua.NewState(lua.Options{SkipOpenLibs: true})
 	defer L.Close()
-	fn, err := L.LoadFile(f.Name())
+	class, msg = loadFileAPI(L, f.Name())
+	if class != loadFunction && class != loadSyntax {
+		return
+	}
+	// the same file through the Lua-level loadfile: same verdict as through the Go API
+	lua.OpenBase(L)
+	if err := L.CallByParam(lua.P{Fn: L.GetGlobal("loadfile"), NRet: 2, Protect: true}, lua.LString(f.Name())); err != nil {
+		return loadOtherErr, "loadfile(path) called from Lua raised: " + trunc(err.Error(), 200)
+	}
+	v1, v2 := L.Get(-2), L.Get(-1)
+	c2 := loadSyntax
+	if _, ok := v1.(*lua.LFunction); ok {
+		c2 = loadFunction
+	} else if v1 != lua.LNil || v2.Type() != lua.LTString {
+		return loadOtherErr, "loadfile(path) called from Lua returned " + v1.Type().String() + ", " + v2.Type().String()
+	}
+	if c2 != class {
+		return loadOtherErr, fmt.Sprintf("L.LoadFile ends in %s but loadfile(path) called from Lua ends in %s %s", loadNames[class], loadNames[c2],
+			trunc(strings.Replace(v2.String(), f.Name(), "<file>", -1), 120))
+	}
+	return
+}
+
+func loadFileAPI(L *lua.LState, name string) (class int, msg string) {
+	fn, err := L.LoadFile(name)
 	if err != nil {
 		if ae, ok := err.(*lua.ApiError); ok && ae.Type == lua.ApiErrorSyntax {
-			return loadSyntax, trunc(strings.Replace(strings.TrimSpace(err.Error()), f.Name(), "<file>", -1), 200)
+			return loadSyntax, trunc(strings.Replace(strings.TrimSpace(err.Error()), name, "<file>", -1), 200)
 		}
 		return loadOtherErr, trunc(fmt.Sprintf("%T: %v", err, err), 300)
 	}
